@@ -99,4 +99,6 @@ def main(tier):
     rep.attempt(samecell.check, rep, 'EC', {'ec_dot_prod'}, ['SRCARR[]'], ['DESTARR[]', 'DEST'], 150, typed=True)
     import lanemacro
     rep.attempt(lanemacro.check, rep, 'EC', {'ec_dot_prod'}, 290)
+    import c16
+    rep.attempt(c16.check_tablefmt, rep)
     return rep.finish()
